@@ -652,3 +652,21 @@ func hasUF(t *Term, seen map[*Term]bool) bool {
 	}
 	return false
 }
+
+// rawCheck runs one SMT-LIB script (ending in check-sat) in a fresh solver process.
+func rawCheck(kind, script string, timeoutMS int) Result {
+	ctx, cancel := context.WithTimeout(context.Background(), time.Duration(timeoutMS)*time.Millisecond)
+	defer cancel()
+	cmd := exec.CommandContext(ctx, kind, "-in", "-smt2")
+	cmd.Stdin = strings.NewReader(script)
+	out, _ := cmd.Output()
+	for _, l := range strings.Split(string(out), "\n") {
+		switch strings.TrimSpace(l) {
+		case "sat":
+			return Sat
+		case "unsat":
+			return Unsat
+		}
+	}
+	return Unknown
+}
